@@ -207,7 +207,11 @@ func mirrorBuild(focus string) func(w *World) {
 			// the teardown oracle is exact: a connection is removed when none of its own messages is
 			// being handled (what a request overlapping the removal of its own connection leaves
 			// behind is undecided, DESIGN 10.4)
-			s.N.QuiesceOwnTraffic = focus == "C10" || focus == "C08"
+			// (found with VERIF_SEED=2 in mirror-tree: the entry left behind is the node management
+			// subscription of the *previous* connection; the next connection's request is then refused
+			// as a duplicate and every later announcement goes to the dead connection - so all MIRROR
+			// variants remove connections this way)
+			s.N.QuiesceOwnTraffic = true
 			l.S[i] = s
 		}
 		l.S[0].Other, l.S[1].Other = l.S[1], l.S[0]
